@@ -312,3 +312,24 @@ Proof.
   intros g r Hwf Hr ephi eu ms Hc env. unfold c15_checkb in Hc.
   rewrite (peq_sound _ _ Hc env). symmetry. apply identity_general_poly; assumption.
 Qed.
+
+(* ------------------------------------------------------------------ *)
+(* the evaluator OBJECT: on one evaluator, for every history of calls on well-formed, distinctly named
+   motifs, every call returns the exact expectation (or raises when the root is not a vertex) *)
+Definition exact_answer (o : option Q) (c : call (T:=Q)) : Prop :=
+  if memb (c_root c) (g_nodes (c_graph c))
+  then exists v, o = Some v /\ v == expectation (c_graph c) (c_root c) (c_phi c) (c_u c)
+  else o = None.
+
+Theorem history_exact : forall calls : list (call (T:=Q)),
+    distinctly_named calls -> (forall c, In c calls -> wf_graph (c_graph c) = true) ->
+    Forall2 exact_answer (run_history alg_q caches_empty calls) calls.
+Proof.
+  intros calls Hd Hwf. rewrite (history_independent alg_q calls Hd). clear Hd.
+  induction calls as [|c calls IH]; cbn [map]; constructor.
+  - rewrite fresh_is_fresh. unfold fresh_value, exact_answer.
+    destruct (memb (c_root c) (g_nodes (c_graph c))) eqn:E; [|reflexivity].
+    eexists. split; [reflexivity|].
+    apply (identity_general (c_graph c) (c_root c)); [apply Hwf; left; reflexivity|apply memb_In, E].
+  - apply IH. intros c' Hc'. apply Hwf. right. exact Hc'.
+Qed.
